@@ -16,7 +16,7 @@ META = {
                  '_get_schema_mismatches / the schema-change path of ResponseFuture + per-step correspondence with the real methods '
                  'under a virtual clock',
     'level_text': 'C43_mismatch_spec, C43_verdict, C43_verdict_sound, C43_keeps_polling, C43_false_only_after_budget, '
-                  'C43_terminates, C43_future_records, C43_future_never_overclaims proved for every script of polls '
+                  'C43_terminates, C43_future_records, C43_future_never_overclaims, C43_future_at_delivery, C43_rows_counted_by_endpoint proved for every script of polls '
                   '(snapshots, host states, timeouts, durations) of any length; the model is run side by side with the real '
                   'methods on generated scripts and on the exhaustive 2-peer snapshot space.',
     'level_note': 'Tie is correspondence (C), not translation: assurance is the weaker of proof and differential run. '
